@@ -149,9 +149,9 @@ def r2(ctx, rep):
     syn = ctx.syn
     to = syn.fn("operators::translate_operator", crate="prqlc")
     ok = False
-    for n in walk(to["body"]):
-        if n.get("k") == "if" and show(n["c"]) == "!ctx.query.window_function":
-            inner = [i for i in walk(n["t"]) if i.get("k") == "if" and i["c"].get("k") == "let" and show(i["c"]["e"]) == "coalesce"]
+    import guards as _g
+    for blk in _g.branches_when(to["body"], "ctx.query.window_function", False):
+            inner = [i for i in walk(blk) if i.get("k") == "if" and i["c"].get("k") == "let" and show(i["c"]["e"]) == "coalesce"]
             for i in inner:
                 bound = [x["n"] for x in walk(i["c"]["pat"]) if x.get("k") == "p_ident"]
                 for a in walk(i["t"]):
@@ -350,6 +350,19 @@ def r5(ctx, rep):
         rep.check(got.get(k) == v, f"sql-join:{k}", f"JoinSide::{k} must be emitted as JoinOperator::{v}; found {got.get(k)}", file=g["file"], line=g["l"], fn=g["path"])
 
 
+def plain_only(g):
+    """the guard admits exactly Complexity::Plain: `c == Plain`, `Plain == c`, `matches!(c, Plain)`, `c <= Plain` (Plain is the least element)"""
+    if g is None:
+        return False
+    if g.get("k") == "paren":
+        return plain_only(g["e"])
+    if g.get("k") == "macro" and g["n"] == "matches" and g.get("guard") is None:
+        return show(g["a"][0]) == "infer_complexity(compute)" and show(g["pat"]) == "Complexity::Plain"
+    t = show(g).strip("()")
+    return t in ("infer_complexity(compute) == Complexity::Plain", "Complexity::Plain == infer_complexity(compute)", "infer_complexity(compute) <= Complexity::Plain",
+                 "Complexity::Plain >= infer_complexity(compute)")
+
+
 def r6(ctx, rep):
     rep.rule("C01.R6", "a compute is moved in front of a take only when it is plain (shared with C04.R7)", floor=2)
     syn = ctx.syn
@@ -361,7 +374,7 @@ def r6(ctx, rep):
     if mm is None:
         raise AnchorMissing("reorder: match prev")
     take_arms = [a for a in mm["arms"] if "Take" in show(a["pat"])]
-    ok = len(take_arms) == 1 and show(take_arms[0].get("guard")) == "(infer_complexity(compute) == Complexity::Plain)" and show(take_arms[0]["body"]) == "true"
+    ok = len(take_arms) == 1 and plain_only(take_arms[0].get("guard")) and show(take_arms[0]["body"]) == "true"
     rep.check(ok, "reorder:take", "an aggregate / window compute evaluated in the same SELECT as LIMIT sees all rows, not the taken ones: only Complexity::Plain computes may be hoisted above `take`", file=r["file"], line=mm["l"], fn=r["path"])
     movers = sorted(show(a["pat"]) for a in mm["arms"] if show(a["body"]) == "true")
     rep.check(movers == ["Super(Sort(_))", "Super(Take(_))"], "reorder:movable", f"computes may only move across Sort and (plain) Take; arms returning true: {movers}", file=r["file"], line=mm["l"], fn=r["path"])
